@@ -91,10 +91,12 @@ def expand_elements(
                     )
                 elif isinstance(element, Continue):
                     if element.label is None and continue_break_labels is not None:
-                        element.label = continue_break_labels[0]
+                        # Do not label the parsed element in place: the same AST is expanded again
+                        # for every runtime created from the same config (and per `when` case copy).
+                        expanded_elements = [Continue(label=continue_break_labels[0])]
                 elif isinstance(element, Break):
                     if element.label is None and continue_break_labels is not None:
-                        element.label = continue_break_labels[1]
+                        expanded_elements = [Break(label=continue_break_labels[1])]
 
                 if len(expanded_elements) > 0:
                     # Map new elements to source
